@@ -15,7 +15,11 @@ import time
 ROOT = os.path.dirname(os.path.dirname(os.path.abspath(__file__)))
 COQ = os.path.join(ROOT, "coq")
 HARNESS_DIR = os.path.join(ROOT, "harness")
-HARNESS_BIN = os.path.join(HARNESS_DIR, "target", "debug", "ht-harness")
+# two builds of the same harness: "deploy" mirrors the semantics of /repo's release profile (debug assertions OFF, overflow
+# checks ON - what the deployed wasm runs), "debug" is the profile `cargo test` uses (debug assertions ON).  World histories
+# run on the deploy build; function-level families run on both and every difference between the two is judged by the model.
+HARNESS_BIN = os.path.join(HARNESS_DIR, "target", "deploy", "ht-harness")
+HARNESS_BIN_DEV = os.path.join(HARNESS_DIR, "target", "debug", "ht-harness")
 BUILD = os.path.join(ROOT, "build")
 REPLAYS = os.path.join(ROOT, "replays")
 EVIDENCE = os.environ.get("HT_EVIDENCE_DIR") or os.path.join(ROOT, "evidence")   # seeded-change trials write theirs elsewhere
@@ -230,33 +234,44 @@ def build_harness(timeout=1500):
         if not os.path.exists(lock_dst) and os.path.exists(lock_src):
             import shutil
             shutil.copy(lock_src, lock_dst)
-        try:
-            p = subprocess.run(["cargo", "build", "--offline", "--quiet"], cwd=HARNESS_DIR, env=ENV,
-                               stdout=subprocess.PIPE, stderr=subprocess.STDOUT, text=True,
-                               timeout=timeout)
-        except subprocess.TimeoutExpired:
+        def cargo(extra):
+            # the two profiles are independent builds: run them side by side
+            cmds = [["cargo", "build", "--offline", "--quiet"] + extra,
+                    ["cargo", "build", "--offline", "--quiet", "--profile", "deploy"] + extra]
+            procs = [subprocess.Popen(c, cwd=HARNESS_DIR, env=ENV, stdout=subprocess.PIPE, stderr=subprocess.STDOUT, text=True)
+                     for c in cmds]
+            outs, rc = [], 0
+            for q in procs:
+                try:
+                    o, _ = q.communicate(timeout=timeout)
+                except subprocess.TimeoutExpired:
+                    q.kill()
+                    return None, "TIMEOUT"
+                outs.append(o)
+                rc = rc or q.returncode
+            return rc, "\n".join(outs)
+        rc, out = cargo([])
+        if rc is None:
             return False, "TIMEOUT"
         global HARNESS_DEGRADED
         HARNESS_DEGRADED = None
-        if p.returncode != 0:
+        if rc != 0:
             # a signature of one of the internal helper functions the harness calls directly may have changed: fall back
             # to the harness without those calls, so that the entry points can still be driven and a failing input sought
-            try:
-                q = subprocess.run(["cargo", "build", "--offline", "--quiet", "--no-default-features"], cwd=HARNESS_DIR,
-                                   env=ENV, stdout=subprocess.PIPE, stderr=subprocess.STDOUT, text=True, timeout=timeout)
-            except subprocess.TimeoutExpired:
+            rc2, out2 = cargo(["--no-default-features"])
+            if rc2 is None:
                 return False, "TIMEOUT"
-            if q.returncode == 0:
-                HARNESS_DEGRADED = p.stdout[-3000:]
-                return True, p.stdout[-6000:]
-        return p.returncode == 0, p.stdout[-6000:]
+            if rc2 == 0:
+                HARNESS_DEGRADED = out[-3000:]
+                return True, out[-6000:]
+        return rc == 0, out[-6000:]
 
 
-def run_harness(lines, timeout=1200):
+def run_harness(lines, timeout=1200, binary=None):
     """Feed lines to the harness, return one result string per line."""
     if not lines:
         return []
-    p = subprocess.run([HARNESS_BIN], input="\n".join(lines) + "\n", env=ENV,
+    p = subprocess.run([binary or HARNESS_BIN], input="\n".join(lines) + "\n", env=ENV,
                        stdout=subprocess.PIPE, stderr=subprocess.PIPE, text=True, timeout=timeout)
     outs = p.stdout.split("\n")
     if outs and outs[-1] == "":
@@ -460,12 +475,35 @@ def run_both(prop, cases, workdir, tag):
     """Run cases on the implementation and in Coq."""
     lines = [c[0] for case in cases for c in case.calls]
     outs = run_harness(lines)
+    outs_dev = run_harness(lines, binary=HARNESS_BIN_DEV) if lines else []
     i = 0
-    for case in cases:
+    differ = []
+    for k, case in enumerate(cases):
         n = len(case.calls)
         case.results = outs[i:i + n]
+        if n and outs_dev[i:i + n] != case.results:
+            differ.append((k, outs_dev[i:i + n]))
         i += n
-    return run_coq_cases(prop, cases, workdir, tag)
+    res = run_coq_cases(prop, cases, workdir, tag)
+    if differ:
+        # the two build profiles of the SAME source behave differently on these inputs (a debug assertion, a cfg on the
+        # profile): the model judges the debug-profile behaviour as well; verdicts are attributed to the same case
+        import copy
+        alt = []
+        for k, r in differ:
+            c = copy.copy(cases[k])
+            c.results = r
+            c.note = ((c.note + "; ") if getattr(c, "note", None) else "") + "behaviour of the debug-profile build (differs from the deploy-profile build)"
+            alt.append(c)
+        r2 = run_coq_cases(prop, alt, workdir, tag + "_dev")
+        res["errors"] += r2["errors"]
+        for key in ("disagree", "propfail", "known"):
+            for j in r2[key]:
+                k = differ[j][0]
+                if k not in res[key]:
+                    res[key].append(k)
+        res["profile_differences"] = len(differ)
+    return res
 
 
 def coq_eval(exprs, workdir, tag="eval", timeout=300):
